@@ -375,14 +375,16 @@ Proof.
 Qed.
 
 (* ---------- reading the logged references at the end of the run ---------- *)
-Lemma resolve_tag nc st FIN fin r x :
-  TagCorr nc st r x -> Ext nc st FIN -> firstn nc FIN = fin -> deref FIN r = tag_finish fin x.
+Lemma resolve_tag nc st CUR FIN now r x :
+  TagCorr nc st r x -> Ext nc st FIN -> firstn nc CUR = now ->
+  deref (if own nc r then CUR else FIN) r = tag_finish now x.
 Proof.
-  intros [r0 H| |l v Hv H1 H2 H3] [_ HE] Hfin; simpl.
-  - destruct r0 as [|v|l]; try reflexivity. simpl in H. apply Nat.ltb_lt in H.
-    simpl. rewrite <- Hfin, nth_firstn_lt by exact H. reflexivity.
+  intros [r0 H| |l v Hv H1 H2 H3] [_ HE] Hnow.
+  - destruct r0 as [|v|l]; try reflexivity. unfold ref_okb in H. unfold own. rewrite H.
+    apply Nat.ltb_lt in H. simpl. rewrite <- Hnow, nth_firstn_lt by exact H. reflexivity.
   - reflexivity.
-  - rewrite HE by assumption. rewrite H3. destruct v; [exfalso; apply Hv; reflexivity | reflexivity].
+  - unfold own. replace (Nat.ltb l nc) with false by (symmetry; apply Nat.ltb_ge; exact H1).
+    simpl. rewrite HE by assumption. rewrite H3. destruct v; [exfalso; apply Hv; reflexivity | reflexivity].
 Qed.
 
 Lemma fill_fill t : fill (fill t) = fill t.
@@ -395,13 +397,13 @@ Proof.
   destruct (existsb is_stamp p); [apply fill_fill | reflexivity].
 Qed.
 
-Lemma leaf_resolved nc now fin st FIN e pk out :
-  LeafOut nc now st e (Orig (v_tags e)) pk out -> Ext nc st FIN -> firstn nc FIN = fin ->
-  map (resolve FIN) out = expect_new now fin (OStatus e) pk.
+Lemma leaf_resolved nc now st CUR FIN e pk out :
+  LeafOut nc now st e (Orig (v_tags e)) pk out -> Ext nc st FIN -> firstn nc CUR = now ->
+  map (resolve nc CUR FIN) out = expect_new now (OStatus e) pk.
 Proof.
   destruct pk as [p k]. unfold LeafOut, expect_new. simpl. destruct k.
-  - intros [r [-> HT]] HE Hfin. simpl. unfold expect_event, with_tags, rebuild. simpl.
-    rewrite (resolve_tag nc st FIN fin r _ HT HE Hfin), ts_fold. reflexivity.
+  - intros [r [-> HT]] HE Hnow. simpl. unfold expect_event, with_tags, rebuild. simpl.
+    rewrite (resolve_tag nc st CUR FIN now r _ HT HE Hnow), ts_fold. reflexivity.
   - intros -> _ _. rewrite fires_spec. destruct (is_failure (v_status e)); reflexivity.
 Qed.
 
@@ -409,29 +411,26 @@ Lemma Forall2_map_eq {A B C} (f : B -> C) (g : A -> C) l m :
   Forall2 (fun a b => f b = g a) l m -> map f m = map g l.
 Proof. induction 1; simpl; [reflexivity|]. f_equal; assumption. Qed.
 
-Lemma step_new_ok nc now fin FIN n o st :
+Lemma step_new_ok nc now FIN n o st :
   firstn nc st = now -> nc <= length st -> op_okb nc o = true ->
-  Ext nc (snd (step n o st)) FIN -> firstn nc FIN = fin ->
-  map (map (resolve FIN)) (fst (step n o st)) = map (expect_new now fin o) (leaves n).
+  Ext nc (snd (step n o st)) FIN ->
+  map (map (resolve nc (snd (step n o st)) FIN)) (fst (step n o st)) = map (expect_new now o) (leaves n).
 Proof.
-  intros Hnow Hnc Hok HE Hfin. destruct o as [| |e|l v]; simpl fst.
+  intros Hnow Hnc Hok HE. destruct o as [| |e|l v]; simpl fst.
   - rewrite signal_spec, map_map. apply map_ext. intros [p []]; reflexivity.
   - rewrite signal_spec, map_map. apply map_ext. intros [p []]; reflexivity.
   - destruct (deliver_ok nc now n e st (Orig (v_tags e)) Hnow Hnc) as [ext [E F]].
     + constructor. exact Hok.
-    + simpl in HE. rewrite E in HE. apply Forall2_map_eq. eapply Forall2_impl; [|exact F].
-      intros pk out HL. eapply leaf_resolved; eassumption.
+    + simpl in HE. simpl snd. rewrite E in *. apply Forall2_map_eq. eapply Forall2_impl; [|exact F].
+      intros pk out HL. eapply leaf_resolved; [exact HL | exact HE |].
+      rewrite firstn_app_le by exact Hnc. exact Hnow.
   - unfold quiet. rewrite signal_spec, !map_map. apply map_ext. intros [p []]; reflexivity.
 Qed.
-
-Definition to_obs (nc : nat) (FIN : store) (os : list (list rentry) * store) : step_obs :=
-  {| s_raised := false; s_new := map (map (resolve FIN)) (fst os); s_caller := firstn nc (snd os) |}.
 
 Lemma caller_after_snoc c past o : caller_after c (past ++ [o]) = caller_step (caller_after c past) o.
 Proof. unfold caller_after. rewrite fold_left_app. reflexivity. Qed.
 
 Lemma run_ok i FIN :
-  firstn (length (caller i)) FIN = caller_after (caller i) (ops i) ->
   forall l past st,
     forallb (op_okb (length (caller i))) l = true ->
     firstn (length (caller i)) st = caller_after (caller i) past ->
@@ -439,14 +438,14 @@ Lemma run_ok i FIN :
     final_store (tree i) l st = FIN ->
     steps_okb i past l (map (to_obs (length (caller i)) FIN) (run (tree i) l st)) = true.
 Proof.
-  intro Hfin. induction l as [|o l IH]; intros past st Hok Hnow Hnc HF; [reflexivity|].
+  induction l as [|o l IH]; intros past st Hok Hnow Hnc HF; [reflexivity|].
   simpl in Hok. apply andb_true_iff in Hok as [Ho Hl].
   rewrite final_store_cons in HF.
-  pose proof (fun fin => step_new_ok _ _ fin FIN (tree i) o st Hnow Hnc Ho) as Hnew.
+  pose proof (step_new_ok _ _ FIN (tree i) o st Hnow Hnc Ho) as Hnew.
   pose proof (step_caller (length (caller i)) (tree i) o st Hnc) as Hcal.
   pose proof (step_Ext (length (caller i)) (tree i) o st Ho) as [HL _].
   pose proof (final_Ext (length (caller i)) (tree i) l (snd (step (tree i) o st)) Hl) as HE.
-  rewrite HF in HE. specialize (Hnew _ HE Hfin).
+  rewrite HF in HE. specialize (Hnew HE).
   simpl run. destruct (step (tree i) o st) as [out st'] eqn:Es. simpl in *.
   apply andb_true_iff. split.
   - unfold step_okb, to_obs. simpl. apply andb_true_iff. split.
@@ -460,7 +459,6 @@ Theorem model_meets_spec i : wf i -> spec_okb i (model i) = true.
 Proof.
   intro Hwf. unfold spec_okb, model. simpl.
   apply (run_ok i (final_store (tree i) (ops i) (caller i))).
-  - rewrite final_caller by lia. rewrite firstn_all. reflexivity.
   - exact Hwf.
   - rewrite firstn_all. reflexivity.
   - lia.
@@ -502,13 +500,12 @@ Theorem once_in_order i : wf i -> forall k o so j pk,
   nth_error (ops i) k = Some o -> nth_error (o_steps (model i)) k = Some so ->
   nth_error (leaves (tree i)) j = Some pk ->
   let now := caller_after (caller i) (firstn k (ops i)) in
-  let fin := caller_after (caller i) (ops i) in
-  nth_error (s_new so) j = Some (expect_new now fin o pk)
-  /\ (snd pk = LSink -> (forall l v, o <> OMutate l v) -> length (expect_new now fin o pk) = 1).
+  nth_error (s_new so) j = Some (expect_new now o pk)
+  /\ (snd pk = LSink -> (forall l v, o <> OMutate l v) -> length (expect_new now o pk) = 1).
 Proof.
-  intros Hwf k o so j pk Ho Hso Hpk now fin. destruct (model_step i k o so Hwf Ho Hso) as (_ & Hnew & _).
+  intros Hwf k o so j pk Ho Hso Hpk now. destruct (model_step i k o so Hwf Ho Hso) as (_ & Hnew & _).
   split.
-  - rewrite Hnew. fold now fin. rewrite nth_error_map, Hpk. reflexivity.
+  - rewrite Hnew. fold now. rewrite nth_error_map, Hpk. reflexivity.
   - intros Hk Hm. unfold expect_new. rewrite Hk. destruct o as [| |e|l v]; try reflexivity.
     exfalso. exact (Hm l v eq_refl).
 Qed.
@@ -588,8 +585,8 @@ Proof.
   unfold set_diff. apply in_canon.
 Qed.
 
-Theorem only_own_field now fin p e :
-  let d := expect_event now fin p e in
+Theorem only_own_field now p e :
+  let d := expect_event now p e in
   v_id d = v_id e /\ v_status d = v_status e /\ v_runnable d = v_runnable e /\ v_file d = v_file e
   /\ v_bytes d = v_bytes e /\ v_eof d = v_eof e /\ v_mime d = v_mime e
   (* route code: the codes of the StreamToQueue objects on the path, prefixed in turn *)
@@ -598,7 +595,7 @@ Theorem only_own_field now fin p e :
   /\ (forall k, v_ts e = TsGiven k -> v_ts d = TsGiven k)
   /\ (v_ts e = TsNone -> v_ts d = if existsb is_stamp p then TsFilled else TsNone)
   (* tags: without a tagger the caller's own argument; with taggers exactly the tags added and not discarded *)
-  /\ (taggers p = [] -> v_tags d = deref fin (v_tags e))
+  /\ (taggers p = [] -> v_tags d = deref now (v_tags e))
   /\ (taggers p <> [] ->
       forall t, In t (match v_tags d with Some v => v | None => [] end)
                 <-> t < tag_universe /\ member_after (taggers p) t (mem t (tags_or_empty now (v_tags e))) = true).
@@ -611,7 +608,7 @@ Proof.
   - intros H t.
     pose proof (tag_fold_mem now t) as Hm. pose proof (tag_fold_small now p (Orig (v_tags e)) H t) as Hs.
     destruct (tag_fold_fresh now p (Orig (v_tags e)) H) as [v Ev]. rewrite Ev in *. simpl in Hs.
-    assert (Hv : match tag_finish fin (Fresh v) with Some v0 => v0 | None => [] end = v) by (destruct v; reflexivity).
+    assert (Hv : match tag_finish now (Fresh v) with Some v0 => v0 | None => [] end = v) by (destruct v; reflexivity).
     rewrite Hv. split.
     + intro Hin. split; [apply Hs; exact Hin|].
       specialize (Hm (Hs Hin) p (Orig (v_tags e))). rewrite Ev in Hm. simpl in Hm. rewrite <- Hm. apply mem_In. exact Hin.
@@ -632,4 +629,67 @@ Proof.
   intros Hwf k o so Ho Hso. destruct (model_step i k o so Hwf Ho Hso) as (_ & _ & Hc).
   split; [exact Hc|]. intro H. rewrite Hc. destruct o as [| |e|l v]; try reflexivity.
   exfalso. exact (H l v eq_refl).
+Qed.
+
+(* ---------- the caller's tag argument enters only through its value at the time of the call ---------- *)
+(* the status call by value: the tags argument replaced by what it denotes when the call is made *)
+Definition by_value (now : store) (e : event tagref) : event otags := with_tags e (deref now (v_tags e)).
+
+Definition SameVal (now1 now2 : store) (x1 x2 : tagstate) : Prop :=
+  match x1, x2 with
+  | Orig a, Orig b => deref now1 a = deref now2 b
+  | Fresh v, Fresh w => v = w
+  | _, _ => False
+  end.
+
+Lemma tag_fold_value now1 now2 p : forall x1 x2, SameVal now1 now2 x1 x2 ->
+  tag_finish now1 (fold_left (tag_step now1) p x1) = tag_finish now2 (fold_left (tag_step now2) p x2).
+Proof.
+  induction p as [|s p IH]; intros x1 x2 H.
+  - destruct x1 as [a|v], x2 as [b|w]; simpl in *; try contradiction; [exact H | subst; reflexivity].
+  - simpl fold_left. apply IH. destruct s; simpl; try exact H.
+    destruct x1 as [a|v], x2 as [b|w]; simpl in *; try contradiction.
+    + unfold tags_or_empty. rewrite H. reflexivity.
+    + subst. reflexivity.
+Qed.
+
+Theorem value_only now1 now2 p e1 e2 :
+  by_value now1 e1 = by_value now2 e2 -> expect_event now1 p e1 = expect_event now2 p e2.
+Proof.
+  destruct e1 as [a1 a2 a3 a4 a5 a6 a7 a8 a9 a10], e2 as [b1 b2 b3 b4 b5 b6 b7 b8 b9 b10].
+  unfold by_value, with_tags, expect_event. simpl. intro H. injection H as -> -> H -> -> -> -> -> -> ->.
+  f_equal. apply tag_fold_value. exact H.
+Qed.
+
+(* two status calls - in two arbitrary trees, two arbitrary histories, passing whatever objects - that
+   are equal by value reach two sinks below the same decorators as the same call *)
+Theorem value_only_model i1 i2 : wf i1 -> wf i2 ->
+  forall k1 k2 e1 e2 so1 so2 j1 j2 pk,
+  nth_error (ops i1) k1 = Some (OStatus e1) -> nth_error (ops i2) k2 = Some (OStatus e2) ->
+  nth_error (o_steps (model i1)) k1 = Some so1 -> nth_error (o_steps (model i2)) k2 = Some so2 ->
+  nth_error (leaves (tree i1)) j1 = Some pk -> nth_error (leaves (tree i2)) j2 = Some pk ->
+  by_value (caller_after (caller i1) (firstn k1 (ops i1))) e1 = by_value (caller_after (caller i2) (firstn k2 (ops i2))) e2 ->
+  nth_error (s_new so1) j1 = nth_error (s_new so2) j2.
+Proof.
+  intros W1 W2 k1 k2 e1 e2 so1 so2 j1 j2 pk O1 O2 S1 S2 L1 L2 HV.
+  destruct (once_in_order i1 W1 k1 _ so1 j1 pk O1 S1 L1) as [R1 _].
+  destruct (once_in_order i2 W2 k2 _ so2 j2 pk O2 S2 L2) as [R2 _].
+  rewrite R1, R2. f_equal. unfold expect_new. destruct (snd pk).
+  - rewrite (value_only _ _ (fst pk) e1 e2 HV). reflexivity.
+  - apply (f_equal v_status) in HV. destruct e1, e2; simpl in HV. simpl. rewrite HV. reflexivity.
+Qed.
+
+(* startTestRun / stopTestRun: every such call, wherever it stands in the history (first run or a later
+   one, repeated, without a matching partner), reaches every sink as exactly that one entry and reaches a
+   StreamFailFast leaf as nothing *)
+Theorem start_stop_every_time i : wf i -> forall k o so j pk,
+  (o = OStart \/ o = OStop) ->
+  nth_error (ops i) k = Some o -> nth_error (o_steps (model i)) k = Some so ->
+  nth_error (leaves (tree i)) j = Some pk ->
+  nth_error (s_new so) j = Some (match snd pk, o with
+                                 | LSink, OStart => [EStart] | LSink, OStop => [EStop] | _, _ => [] end).
+Proof.
+  intros Hwf k o so j pk Hkind Ho Hso Hpk.
+  destruct (once_in_order i Hwf k o so j pk Ho Hso Hpk) as [R _]. rewrite R. f_equal.
+  unfold expect_new. destruct Hkind as [-> | ->]; destruct (snd pk); reflexivity.
 Qed.
